@@ -251,7 +251,7 @@ func verifUDP(k int, nKeys int, nAddrs int, symDst bool) {
 
 func VH_C03_upstream() { verifUDP(2, 2, 2, false) }
 
-func VH_C03_upstream_T() { verifUDP(3, 2, 3, false) }
+func VH_C03_upstream_T() { verifUDP(3, 1, 2, false) }
 
 // C05 over UDP: every datagram of an association is checked, for every destination address
 func VH_C05_udp() { verifUDP(2, 1, 1, true) }
